@@ -289,6 +289,30 @@ package nfa
 //@   modifies p.*, family E:int, family E:nfa.searchThread, family E:uint32, family H:internal/sparse.SparseSet, family E:nfa.captureFrame
 //@ trusted func (*PikeVM).buildCapturesFromSlots
 //@ trusted func (SkipAhead).Find
+// third protocol fact (C03/C13): a capture search runs with ALL capture slots active - the Find-mode searches narrow
+// the same pooled slot tables to 2 slots, so the capture entry point has to re-arm them on every call
+//@ uninterpreted spec func capCount(n *NFA) int
+//@ trusted func (*NFA).CaptureCount
+//@   ensures result == capCount(n) && 0 <= result && result <= 1048576
+//@ trusted func (*PikeVM).ensureInternalState
+//@   modifies p.*
+// (stated for the call ensureSlotTables(&p.internalState), the only one in code under contract: the verifier does not
+// connect postconditions through an interior-pointer argument)
+//@ trusted func (*PikeVM).ensureSlotTables
+//@   modifies p.internalState.*
+//@   ensures p.internalState.SlotTable != nil && p.internalState.NextSlotTable != nil && p.internalState.SlotTable.slotsPerState == capCount(p.nfa) * 2 && p.internalState.NextSlotTable.slotsPerState == capCount(p.nfa) * 2
+//@ trusted func (*PikeVM).matchesEmptyAt
+//@ trusted func (*PikeVM).matchesEmpty
+//@ spec func capAll(p *PikeVM) bool = p.internalState.SlotTable != nil && p.internalState.NextSlotTable != nil && p.internalState.SlotTable.activeSlots == p.internalState.SlotTable.slotsPerState && p.internalState.NextSlotTable.activeSlots == p.internalState.NextSlotTable.slotsPerState
+//@ func (*PikeVM).SearchWithSlotTableCapturesAt
+//@   props C03 C13 C07
+//@   opt safety=off
+//@   opt frame=off
+//@   opt check_requires=searchWithSlotTableCapturesAnchored,searchWithSlotTableCapturesUnanchored
+//@   requires p != nil && p.nfa != nil
+//@   modifies p.*
+//@   after call SetActiveSlots#2: capAll(p)
+
 // second protocol fact (C02/C10): inside one sweep over the thread queue the best match is only ever replaced according
 // to the rule above (isBetterMatch), and in leftmost-first mode the sweep stops at the first matching thread (thread
 // order is priority order), so a back edge is reached with the best match unchanged
@@ -316,7 +340,7 @@ package nfa
 //@   opt safety=off
 //@   opt check_requires=addSearchThread
 //@   opt frame=off
-//@   requires p != nil
+//@   requires p != nil && capAll(p)
 //@   modifies p.*
 //@   loop 2: invariant -1 <= rangeindex && rangeindex < rangelen && rangelen == len(p.internalState.currSlots) && (forall j :: 0 <= j && j <= rangeindex ==> p.internalState.currSlots[j] == -1)
 //@   loop 3: ghost bs0 = bestStart
@@ -333,7 +357,7 @@ package nfa
 //@   opt safety=off
 //@   opt check_requires=addSearchThread
 //@   opt frame=off
-//@   requires p != nil
+//@   requires p != nil && capAll(p)
 //@   modifies p.*
 //@   loop 1: invariant -1 <= rangeindex && rangeindex < rangelen && rangelen == len(p.internalState.currSlots) && (forall j :: 0 <= j && j <= rangeindex ==> p.internalState.currSlots[j] == -1)
 
